@@ -4,7 +4,8 @@
 \*   content  9 operations classes x 11 map classes x {memory, temp file}
 \*   cut      4 places where the body ends early x {memory, temp file}
 \*   size     3 limit configurations x 8 total lengths around MaxMemory / MaxUploadSize x {known length, chunked}
-\* Measured: see notes/C10.md (every action except WalkPanic - disabled by FixWalk - is taken).
+\* Measured: 33,264 inputs (order 31,248, path 1,768, content 198, cut 8, size 42), 200,897 distinct states,
+\* depth 23, about 20 s with -workers 1; every action except WalkPanic (disabled by FixWalk) is taken.
 CONSTANTS
   MaxParts = 5
   Depth = 3
